@@ -1228,6 +1228,8 @@ struct Paths<'a> {
     fn_mode: bool,
     extra: &'a [&'a str],
     out: Vec<(bool, String)>,
+    /// paths that reach a `break` of the loop being enumerated, with the progress made on the way
+    breaks: Vec<(bool, String)>,
 }
 
 impl<'a> Paths<'a> {
@@ -1321,17 +1323,26 @@ impl<'a> Paths<'a> {
                 }
                 vec![]
             }
-            syn::Expr::Break(_) => vec![],
+            syn::Expr::Break(_) => {
+                self.breaks.push((p, format!("{}/break", d)));
+                vec![]
+            }
             syn::Expr::While(w) => vec![(p || self.expr_progress(&w.cond), d)],
             syn::Expr::ForLoop(f) => vec![(p || self.expr_progress(&f.expr), d)],
             syn::Expr::Loop(l) => {
                 // at least one iteration runs: a sub-enumeration of its body; the loop is left through `break`
                 // (not tracked) — credit progress only if every iteration path has it
-                let mut sub = Paths { fn_mode: self.fn_mode, extra: self.extra, out: vec![] };
-                let mut all = sub.go(&l.body.stmts, false, String::new());
-                all.extend(sub.out.drain(..).filter(|x| !x.1.ends_with("/return")));
-                let every = !all.is_empty() && all.iter().all(|x| x.0);
-                vec![(p || every, d)]
+                // the loop is left through a `break`; the first iteration may already take it, so what is known after
+                // the loop is what each path to a `break` has consumed (earlier full iterations only add to that)
+                let mut sub = Paths { fn_mode: self.fn_mode, extra: self.extra, out: vec![], breaks: vec![] };
+                let _ = sub.go(&l.body.stmts, false, String::new());
+                // `return`s inside the loop body end the function: pass them up
+                for r in sub.out.drain(..) {
+                    if r.1.ends_with("/return") {
+                        self.out.push((p || r.0, format!("{}/loop{}", d, r.1)));
+                    }
+                }
+                sub.breaks.iter().map(|b| (p || b.0, format!("{}/loop{}", d, b.1))).collect()
             }
             other => {
                 if self.diverges(other) {
@@ -1344,7 +1355,7 @@ impl<'a> Paths<'a> {
 }
 
 fn path_has_progress(stmts: &[syn::Stmt]) -> Vec<(bool, String)> {
-    let mut ps = Paths { fn_mode: false, extra: &[], out: vec![] };
+    let mut ps = Paths { fn_mode: false, extra: &[], out: vec![], breaks: vec![] };
     let fall = ps.go(stmts, false, String::new());
     let mut out = ps.out;
     out.extend(fall);
@@ -1353,7 +1364,7 @@ fn path_has_progress(stmts: &[syn::Stmt]) -> Vec<(bool, String)> {
 
 /// Function-mode enumeration: every path to a normal return of `block`.
 fn fn_paths(block: &syn::Block, extra: &[&str]) -> Vec<(bool, String)> {
-    let mut ps = Paths { fn_mode: true, extra, out: vec![] };
+    let mut ps = Paths { fn_mode: true, extra, out: vec![], breaks: vec![] };
     let fall = ps.go(&block.stmts, false, String::new());
     let mut out = ps.out;
     out.extend(fall);
